@@ -194,9 +194,13 @@ fn walk_keys(
             }),
             Ok(v) if is_litwrapper(&v) => {
                 let lit = ev.render(&v);
+                let registered = ev.registered();
                 let index_uses = ev.index_uses.clone();
                 let mut j = json!({"path": path, "kind":"lit", "fields": [], "lit": term_or_err(lit),
                     "index_uses": index_uses.iter().map(|(n,i,l)| json!([n,i,l])).collect::<Vec<_>>()});
+                if cfg!(feature = "dynamic_load") {
+                    j["registered"] = registered.to_json();
+                }
                 // the t*! macro expansions on a literal key
                 j["macros"] = macro_terms(idx, path, &[]);
                 // return type as declared
@@ -327,12 +331,14 @@ fn builder_key(idx: &Index, path: &[String], dummy_ty: &AbsPath, dummy: Val) -> 
         let d = ev.method(b, "build_string", vec![])?;
         ev.render(&d)
     })();
+    let registered = ev.registered();
 
     json!({
         "path": path, "kind": "builder", "fields": fields, "bounds": bounds, "display_self": display_self,
         "view": term_or_err(view), "display": term_or_err(display), "string": term_or_err(string),
         "index_uses": index_uses.iter().map(|(n,i,l)| json!([n,i,l])).collect::<Vec<_>>(),
         "macros": macro_terms(idx, path, &fields),
+        "registered": if cfg!(feature = "dynamic_load") { registered.to_json() } else { json!(null) },
     })
 }
 
